@@ -148,10 +148,12 @@ def head3 (c : Cfg) (tname : String) (st : St) : List Ev × St :=
 
 /-! ### base64 (StdEncoding, strict, padded) -/
 
-def b64Alphabet : Array Char :=
-  "ABCDEFGHIJKLMNOPQRSTUVWXYZabcdefghijklmnopqrstuvwxyz0123456789+/".toList.toArray
+/-- the digit of value `n < 64` in the alphabet A–Z a–z 0–9 + / -/
+def b64Digit (n : Nat) : Char :=
+  if n < 26 then Char.ofNat (65 + n) else if n < 52 then Char.ofNat (71 + n)
+  else if n < 62 then Char.ofNat (n - 4) else if n = 62 then '+' else '/'
 
-def b64Char (n : Nat) : Char := b64Alphabet.getD (n % 64) 'A'
+def b64Char (n : Nat) : Char := b64Digit (n % 64)
 
 def b64Chars : List UInt8 → List Char
   | [] => []
@@ -173,21 +175,30 @@ def b64Val (c : Char) : Option Nat :=
   else if '0' ≤ c ∧ c ≤ '9' then some (c.toNat - '0'.toNat + 52)
   else if c = '+' then some 62 else if c = '/' then some 63 else none
 
+/-- strict decoding: groups of four; padding only in the last group and only over zero bits -/
 def unb64Chars : List Char → Option (List UInt8)
   | [] => some []
-  | [a, b, '=', '='] => do
-    let x ← b64Val a; let y ← b64Val b
-    let n := x * 262144 + y * 4096
-    if n % 65536 = 0 then some [UInt8.ofNat (n / 65536)] else none
-  | [a, b, c, '='] => do
-    let x ← b64Val a; let y ← b64Val b; let z ← b64Val c
-    let n := x * 262144 + y * 4096 + z * 64
-    if n % 256 = 0 then some [UInt8.ofNat (n / 65536), UInt8.ofNat (n / 256 % 256)] else none
-  | a :: b :: c :: d :: rest => do
-    let x ← b64Val a; let y ← b64Val b; let z ← b64Val c; let w ← b64Val d
-    let n := x * 262144 + y * 4096 + z * 64 + w
-    let r ← unb64Chars rest
-    some (UInt8.ofNat (n / 65536) :: UInt8.ofNat (n / 256 % 256) :: UInt8.ofNat (n % 256) :: r)
+  | a :: b :: c :: d :: rest =>
+    if d = '=' then
+      if rest ≠ [] then none
+      else if c = '=' then
+        match b64Val a, b64Val b with
+        | some x, some y =>
+          let n := x * 262144 + y * 4096
+          if n % 65536 = 0 then some [UInt8.ofNat (n / 65536)] else none
+        | _, _ => none
+      else
+        match b64Val a, b64Val b, b64Val c with
+        | some x, some y, some z =>
+          let n := x * 262144 + y * 4096 + z * 64
+          if n % 256 = 0 then some [UInt8.ofNat (n / 65536), UInt8.ofNat (n / 256 % 256)] else none
+        | _, _, _ => none
+    else
+      match b64Val a, b64Val b, b64Val c, b64Val d, unb64Chars rest with
+      | some x, some y, some z, some w, some r =>
+        let n := x * 262144 + y * 4096 + z * 64 + w
+        some (UInt8.ofNat (n / 65536) :: UInt8.ofNat (n / 256 % 256) :: UInt8.ofNat (n % 256) :: r)
+      | _, _, _, _, _ => none
   | _ => none
 
 def unb64 (s : String) : Option (List UInt8) := unb64Chars s.toList
